@@ -79,7 +79,8 @@ theorem threshold_expressions_decided :
     (multiaddressDefaultThresholdE.map (TExpr.computes · TExpr.specAlphabet)) = some true ∧
     (multiaddressCommitteeThresholdE.map (TExpr.computes · TExpr.specMajority)) = some true ∧
     (nnsCommitteeThresholdE.map (TExpr.computes · TExpr.specMajority)) = some true ∧
-    committeeMultisigThresholds.all (fun o => o.map (TExpr.computes · TExpr.specMajority) == some true) = true := by
+    committeeMultisigThresholds.all (fun o => o.map (TExpr.computes · TExpr.specMajority) == some true) = true ∧
+    otherMultisigSites.all (fun p => p.2.map (TExpr.computes · TExpr.specAlphabet) == some true) = true := by
   decide +kernel
 
 /-- … and therefore, by the soundness theorem of the procedure, for EVERY number of keys n ≥ 1 (no bound) the source
@@ -90,9 +91,11 @@ theorem threshold_expressions (n : Nat) (h : 1 ≤ n) :
     (multiaddressCommitteeThresholdE.bind (TExpr.evalGo · n)) = some ((n / 2 + 1 : Nat) : Int) ∧
     (nnsCommitteeThresholdE.bind (TExpr.evalGo · n)) = some ((n / 2 + 1 : Nat) : Int) ∧
     -- every multi-signature account the translator named `committee` because it is built in place over the committee keys
-    (∀ o ∈ committeeMultisigThresholds, (o.bind (TExpr.evalGo · n)) = some ((n / 2 + 1 : Nat) : Int)) := by
-  obtain ⟨h1, h2, h3, h4⟩ := threshold_expressions_decided
-  refine ⟨?_, ?_, ?_, ?_⟩
+    (∀ o ∈ committeeMultisigThresholds, (o.bind (TExpr.evalGo · n)) = some ((n / 2 + 1 : Nat) : Int)) ∧
+    -- every other function of the contracts that builds a multi-signature account from a key list (`neofs.multiaddress`)
+    (∀ p ∈ otherMultisigSites, (p.2.bind (TExpr.evalGo · n)) = some ((n * 2 / 3 + 1 : Nat) : Int)) := by
+  obtain ⟨h1, h2, h3, h4, h5⟩ := threshold_expressions_decided
+  refine ⟨?_, ?_, ?_, ?_, ?_⟩
   · cases he : multiaddressDefaultThresholdE with
     | none => simp [he] at h1
     | some e => simp [he] at h1; simp [TExpr.computes_sound h1 n h, TExpr.eval_specAlphabet]
@@ -108,6 +111,12 @@ theorem threshold_expressions (n : Nat) (h : 1 ≤ n) :
     cases o with
     | none => simp at this
     | some e => simp at this; simp [TExpr.computes_sound this n h, TExpr.eval_specMajority]
+  · intro p hp
+    rw [List.all_eq_true] at h5
+    have := h5 p hp
+    cases hq : p.2 with
+    | none => simp [hq] at this
+    | some e => simp [hq] at this; simp [TExpr.computes_sound this n h, TExpr.eval_specAlphabet]
 
 -- the procedure is not vacuous: equivalent spellings are accepted, different thresholds are refused
 example : TExpr.computes (.sub .var (.div (.sub .var (.lit 1)) (.lit 3))) TExpr.specAlphabet = true := by decide +kernel
